@@ -11,6 +11,7 @@
    aborts otherwise).  This file contains only statements, `exact` proofs and Print Assumptions. *)
 From Coq Require Import ZArith List Bool.
 From ScV Require Import C10.AllocBase C10.AllocModel C10.AllocArith C10.AllocInv C10.AllocSteps C10.AllocPkg C10.AllocTop.
+From ScV Require Import Base.CInt Gen.AllocC10 C10.AllocGen.
 Import ListNotations.
 Local Open Scope Z_scope.
 
@@ -146,3 +147,70 @@ Example C10_legal_example :
                OCalloc 0 3 4 20001; OStrdup (-1) (Some [65;66]) 30005; ORc 0 1; OCheck 0; OFree 0 4; ORc 0 (-1); OUnregister 0;
                ORegister 9; OFree (-1) 3; OFree (-1) 5; OFinalize] = true.
 Proof. vm_compute. reflexivity. Qed.
+
+(* ===== tie T1: the model computes what the definitions GENERATED from /repo/src/sc.c compute ============================== *)
+(* Gen/AllocC10.v is regenerated from the working tree on every run (tools/c2g/groups_C10.py); an edit of the arithmetic in
+   sc.c changes a generated definition and the statements below stop checking. *)
+
+(* the generated body of sc_malloc_aligned, for every alignment > 0, size >= 0 and raw address (block below 2^62): malloc is
+   asked for the model's alloc_size, the model's aligned_ptr is returned, the raw pointer is stored in the word at
+   ptr - 8 and the size in the word at ptr - 16 *)
+Theorem C10_gen_malloc_aligned : forall al size raw, 0 < al -> 0 <= size -> 0 <= raw -> raw + alloc_size al size < MAXA ->
+  sc_malloc_aligned_arith al size raw =
+  (alloc_size al size, aligned_ptr al raw - 8, raw, aligned_ptr al raw - 16, size, aligned_ptr al raw).
+Proof. exact gen_malloc_aligned. Qed.
+Print Assumptions C10_gen_malloc_aligned.
+
+(* the model's sc_malloc_aligned written with the generated function: block size, pointer, both word stores *)
+Theorem C10_gen_malloc_aligned_model : forall junk st tag al size raw, 0 < al -> 0 <= size -> 0 <= raw -> raw + alloc_size al size < MAXA ->
+  malloc_aligned junk st tag al size raw =
+  let '(asz, a1, v1, a2, v2, p) := sc_malloc_aligned_arith al size raw in
+  let h := length (s_heap st) in
+  (set_heap st (s_heap st ++ [Some (mkblk tag raw size
+      (upd (upd (mkjunk_from junk h 0 (Z.to_nat asz)) (a1 - raw) (le64_enc v1)) (a2 - raw) (le64_enc v2)))]), h, p).
+Proof. exact gen_malloc_aligned_model. Qed.
+Print Assumptions C10_gen_malloc_aligned_model.
+
+(* C10_aligned / C10_layout / C10_aligned_least stated of the GENERATED definition *)
+Theorem C10_gen_malloc_aligned_props : forall al size raw, 0 < al -> 0 <= size -> 0 <= raw -> raw + alloc_size al size < MAXA ->
+  let '(asz, a1, v1, a2, v2, p) := sc_malloc_aligned_arith al size raw in
+  p mod al = 0 /\ raw <= a2 /\ a2 + 8 = a1 /\ a1 + 8 = p /\ p + size < raw + asz /\ v1 = raw /\ v2 = size /\
+  (forall q, raw + 16 <= q -> q mod al = 0 -> p <= q).
+Proof. exact gen_malloc_aligned_props. Qed.
+Print Assumptions C10_gen_malloc_aligned_props.
+
+(* sc_free_aligned: the pointer the model hands to free () is the word the generated code reads (at ptr - 8) and hands to free () *)
+Theorem C10_gen_free_aligned : forall b al, word_m1 b = sc_free_aligned_arith (blk_word b) (b_ptr b) al.
+Proof. exact gen_free_aligned_model. Qed.
+Print Assumptions C10_gen_free_aligned.
+
+(* sc_realloc_aligned: old size read at ptr - 16, new block of (alignment, size), memcpy (new, old, min (old size, size)),
+   the old pointer released, the new one returned - as in the model's realloc_aligned *)
+Theorem C10_gen_realloc_aligned : forall b al size np,
+  sc_realloc_aligned_arith (blk_word b) (b_ptr b) al size np =
+  (al, size, np, b_ptr b, Z.min (word_m2 b) size, b_ptr b, al, np).
+Proof. exact gen_realloc_aligned_model. Qed.
+Print Assumptions C10_gen_realloc_aligned.
+
+(* the alignment sc_malloc / sc_calloc / sc_realloc / sc_free pass on (SC_MEMALIGN_BYTES) is the model's ALIGN; sc_calloc's size *)
+Theorem C10_gen_align : ALIGN = alloc_align_malloc /\ ALIGN = alloc_align_calloc /\ ALIGN = alloc_align_realloc /\ ALIGN = alloc_align_free.
+Proof. exact gen_align. Qed.
+Print Assumptions C10_gen_align.
+
+Theorem C10_gen_calloc_size : forall nm sz, 0 <= nm * sz < MAXA -> alloc_calloc_size nm sz = nm * sz.
+Proof. exact gen_calloc_size. Qed.
+Print Assumptions C10_gen_calloc_size.
+
+(* sc_package_register from the search for an unused slot to the growth of the table, for every table below 2^30 slots at
+   every (element) address B: the generated loop finds the id the model's `register` returns, the table has the model's size
+   afterwards, and it is reallocated exactly when the model grows it, to (2 n + 1) * sizeof (sc_package_t) bytes *)
+Theorem C10_gen_register : forall st name B sz rr, nalloc st < 2 ^ 30 -> 0 <= sz < 2 ^ 31 ->
+  let id := snd (register st name) in
+  let st' := fst (register st name) in
+  exists i np base rsz,
+    register_slot (S (length (s_pkgs st))) (reg_at (s_pkgs st) B) (nalloc st) B sz rr = Some (i, np, id, nalloc st', base, rsz) /\
+    np = base + id /\
+    (id < nalloc st -> base = B /\ rsz = 0 /\ nalloc st' = nalloc st) /\
+    (nalloc st <= id -> id = nalloc st /\ base = rr /\ rsz = (2 * nalloc st + 1) * sz /\ nalloc st' = 2 * nalloc st + 1).
+Proof. exact gen_register_model. Qed.
+Print Assumptions C10_gen_register.
